@@ -196,9 +196,21 @@ def gen_ws(rng, small=False, links=False):
                     out.append(k)
             return out
         xps.append(dict(name=name, jobs=subset(), bak=subset() if rng.random() < 0.4 else None))
+    out = dict(jobs=jobs, xps=xps)
     if lks:
-        return dict(jobs=jobs, xps=xps, links=lks)
-    return dict(jobs=jobs, xps=xps)
+        out["links"] = lks
+    if rng.random() < 0.2:
+        # entries of jobs/<task>/ that are not directories: a stray file, a link whose target is gone
+        used = set(keys)
+        strays = []
+        for _ in range(rng.choice([1, 1, 2])):
+            t, h = rng.choice(tasks + TASKS[:2]), rng.choice(HASHES + ["notes.txt", "tmp"])
+            if (t, h) not in used:
+                used.add((t, h))
+                strays.append(dict(task=t, name=h, kind=rng.choice(["file", "dangling"])))
+        if strays:
+            out["strays"] = strays
+    return out
 
 
 # ------------------------------------------------------------------ printing filters to text
@@ -380,8 +392,8 @@ def o_atom(a, j, lookup=lookup):
         return cur is not None and cur in a["l"]
     if a["k"] == "notin":
         return not (cur is not None and cur in a["l"])
-    if cur is None or cur == "":
-        return False
+    if cur is None:
+        return False            # (an empty value is a value: `x ~ ".*"` matches it)
     rx = re.compile(re_text(a["re"]))
     if a["eol"]:
         return rx.fullmatch(cur) is not None
@@ -669,6 +681,8 @@ def blame(case, ans, k=None):
         else:
             v = r["verdicts"].get(f"{k[0]}/{k[1]}")
             if v is None or v != o_atom(a, jobs[k]):
+                if a["k"] == "regex" and lookup(a["v"], jobs[k]) == "":
+                    return "empty-value"
                 if numeric_tag(a, jobs[k]):
                     return "numeric-tag"
                 return "backslash" if (v is not None and has_backslash(a)) else a["k"]
@@ -714,7 +728,11 @@ def oracle(case, ans):
             elif r["v"] != want:
                 atom_ok = False
                 if r["v"] != o_atom(a, j, impl_lookup):     # not explained by the state alone
-                    if numeric_tag(a, j):
+                    if a["k"] == "regex" and lookup(a["v"], j) == "":
+                        out.append(("C19:filter:regex-empty-value",
+                                    "a `~` test on a tag whose value is the empty string answers False although the "
+                                    "regular expression matches the empty string"))
+                    elif numeric_tag(a, j):
                         out.append(("C19:filter:numeric-tag",
                                     f"a `{a['k']}` test on a tag whose value is a number answers {r['v']} where the "
                                     f"comparison with the text of the number gives {want}"))
@@ -772,7 +790,8 @@ def oracle(case, ans):
             else:
                 sel = lambda jj: o_tree(near_["reading"], jj)                      # noqa: E731
         if ans["exc"] is not None:
-            cause = ("unreadable-pid" if any(unreadable(jj) and jj["failed"] and not jj["done"] for jj in jobs.values())
+            cause = ("stray-entry" if (w.get("strays") and "--ready" in case.get("flags", []))
+                     else "unreadable-pid" if any(unreadable(jj) and jj["failed"] and not jj["done"] for jj in jobs.values())
                      else "numeric-tag" if case["expr"] is not None and not case.get("near") and any(
                          numeric_tag(a, jj) for a in atoms_of(case["expr"]) for jj in jobs.values())
                      else blame(case, ans))
@@ -927,6 +946,8 @@ def candidates(case):
             put(lambda x, i=i: x["ws"]["xps"][i].update(bak=None))
     for i in range(len(w.get("links", []))):
         put(lambda x, i=i: x["ws"]["links"].pop(i))
+    for i in range(len(w.get("strays", []))):
+        put(lambda x, i=i: x["ws"]["strays"].pop(i))
     for i, j in enumerate(w["jobs"]):
         if j["tags"]:
             put(lambda x, i=i: x["ws"]["jobs"][i].update(tags={}))
@@ -975,6 +996,20 @@ def sweep_cases():
         out.append(dict(kind="filter", job=j, expr=dict(first=dict(k="notin", v="@state", l=STATES), rest=[])))
         for perform in (True, False):
             out.append(dict(kind="clean", ws=dict(jobs=[j], xps=[]), experiment=None, expr=None, perform=perform))
+    # a tag whose value is the empty string is a value: patterns that match "" match it
+    je = dict(task="pkg.mod.task", hash="0a1b", done=True, failed=False, pid=False, alive=False, tags={"suffix": "", "x": "a"})
+    for rx, eol in ((["star", ["any"]], False), (["eps"], True), (["star", ["chr", "a"]], True), (["chr", "a"], False)):
+        for v in ("suffix", "x", "missing"):
+            out.append(dict(kind="filter", job=je, expr=dict(first=dict(k="regex", v=v, re=rx, eol=eol, bol=False), rest=[])))
+    out.append(dict(kind="filter", job=je, expr=dict(first=dict(k="eq", v="suffix", o=dict(const="")), rest=[])))
+    # entries of jobs/<task>/ that are not directories, listed first or last, with --ready
+    jf = dict(task="m.t", hash="1c2d", done=False, failed=True, pid=False, alive=False, tags={})
+    for kind_ in ("file", "dangling"):
+        for name in ("0000", "zzzz"):
+            for flags in (["--ready"], ["--ready", "--tags"], []):
+                out.append(dict(kind="clean", ws=dict(jobs=[dict(je, task="m.t"), jf], xps=[],
+                                                      strays=[dict(task="m.t", name=name, kind=kind_)]),
+                                experiment=None, expr=None, perform=True, flags=flags))
     # the pid file is there but empty / cut while the job process runs (or not), with every marker combination
     err = dict(first=dict(k="eq", v="@state", o=dict(const="ERROR")), rest=[])
     for pf in ("empty", "truncated"):
@@ -1106,6 +1141,8 @@ def run(c: Check):
             c.count(f"{kind}:jobs={len(w['jobs'])}")
             c.count(f"{kind}:xps={len(w['xps'])}")
             c.count(f"{kind}:removed={len(a['removed'])}")
+            if w.get("strays"):
+                c.count(f"{kind}:stray-entries" + (",--ready" if "--ready" in case.get("flags", []) else ""))
             for j in w["jobs"]:
                 c.count("marker-state:" + str(true_state(j)) + ("+live" if j["pid"] and j["alive"] else "")
                         + ("+pid-unreadable" if unreadable(j) else ""))
